@@ -122,6 +122,16 @@ def perturbations(c, t, rnd, many_months=False):
             sl[m] = sl[m] * 1.5 + 1e-3 * max(1.0, sl.max())
             set_meat(c2, t2, sl)
 
+        # the optimiser is handed the meat supply twice over (monthly slaughter, its running total, and the horizon total as a
+        # constant): raising the running total alone from some month on means "this much meat could be eaten earlier"
+        m3 = rnd.randrange(N)
+
+        def meat_running(c2, t2):
+            cum = np.asarray(t2["max_consumed_culled_kcals_each_month"], float).copy()
+            cum[m3:] += 0.02 * max(float(cum[-1]), 1e-9)
+            t2["max_consumed_culled_kcals_each_month"] = cum
+
+        out.append(("meat_running_total:from_month%d+2%%_of_total" % m3, "more", meat_running))
         out.append(("meat:all_months+10%", "more", meat_all))
         out.append(("meat:month%d+50%%" % m, "more", meat_one))
 
